@@ -26,6 +26,8 @@ class Unit:
         self.globals = {}       # name -> VarDecl
         self._resolve_locs()
         self._index()
+        self.renamed = {}       # function -> {confirmed name: name in the source}
+        self._canonical_names()
 
     # -- locations -------------------------------------------------------
     def _resolve_locs(self):
@@ -132,6 +134,61 @@ class Unit:
             if inner:
                 stk.extend(inner)
 
+    # -- names ---------------------------------------------------------------
+    def _canonical_names(self):
+        """Rules address parameters and locals by the names they had on the tree the rules were confirmed on
+        (known_functions.json: parameters by position and type, locals by order of declaration and type).  A function
+        whose variables were merely renamed gets the confirmed names back here, in the loaded tree only; a function with
+        a different parameter list keeps its names, and so do its locals when their number or types changed."""
+        tab = _known_names()
+        if not tab or os.environ.get('UFWSA_NO_CANON'):
+            return
+        for fname, f in self.functions.items():
+            alts = tab.get(fname)
+            fl = node_file(f)
+            if not alts or not fl or not fl.startswith(front.REPO):
+                continue
+            ps = [c for c in f.get('inner', []) if c.get('kind') == 'ParmVarDecl']
+            body = self.body(fname)
+            ls = [x for x in walk(body) if x.get('kind') == 'VarDecl']
+            ren = {}
+            for alt in alts:
+                r = {}
+                if len(alt['params']) == len(ps) and all(qual_type(q) == t for q, (n_, t) in zip(ps, alt['params'])):
+                    for q, (n_, t) in zip(ps, alt['params']):
+                        if q.get('name') != n_ and n_:
+                            r[q['id']] = n_
+                    if len(alt['locals']) == len(ls) and all(qual_type(x) == t for x, (n_, t) in zip(ls, alt['locals'])):
+                        for x, (n_, t) in zip(ls, alt['locals']):
+                            if x.get('name') != n_ and n_:
+                                r[x['id']] = n_
+                    ren = r
+                    break
+            if not ren:
+                continue
+            # the result has to keep distinct what was distinct: a new name must not meet an unrenamed variable of that name
+            final = {}
+            clash = False
+            for d in ps + ls:
+                new = ren.get(d['id'], d.get('name'))
+                final.setdefault(new, set()).add(d.get('name'))
+            for new, olds in final.items():
+                if len(olds) > 1:
+                    clash = True
+            if clash:
+                continue
+            back = {}
+            for x in walk(f):
+                k = x.get('kind')
+                if k in ('ParmVarDecl', 'VarDecl') and x.get('id') in ren:
+                    back[ren[x['id']]] = x.get('name')
+                    x['name'] = ren[x['id']]
+                elif k == 'DeclRefExpr':
+                    rd = x.get('referencedDecl') or {}
+                    if rd.get('id') in ren:
+                        rd['name'] = ren[rd['id']]
+            self.renamed[fname] = back
+
     # -- helpers -----------------------------------------------------------
     def const_value(self, n):
         """Integer value of a constant expression node, or None."""
@@ -207,6 +264,19 @@ class Unit:
             if fl and fl.endswith(suffix):
                 out.append(name)
         return out
+
+
+_names = None
+
+
+def _known_names():
+    global _names
+    if _names is None:
+        try:
+            _names = json.load(open(os.path.join(os.path.dirname(os.path.abspath(__file__)), 'known_functions.json'))).get('names', {})
+        except (OSError, ValueError):
+            _names = {}
+    return _names
 
 
 def load(rel, variant=None, source_text=None):
